@@ -236,6 +236,20 @@ def body(case):
                                      % snap.diff(a, b, limit=1)))
         except Exception as exc:
             fails.append(failure("conv.write_to_file", "write_to_file / reload raised %r" % str(exc)[:150]))
+        # str(converter) is the third way to obtain the converted XML (XML sources only)
+        if fmt == "XML":
+            try:
+                as_text = str(VersionConverter(make_stringio(text, case.get("stringio_pos", "start"))
+                                               if use_stringio else src_path))
+                again = XMLReader(ignore_errors=False, show_warnings=False).from_string(as_text)
+                a = snap.normalize(snap.content(loaded), ids=False, trim=True)
+                b = snap.normalize(snap.content(again), ids=False, trim=True)
+                if a != b:
+                    fails.append(failure("conv.str", "str(converter) differs from convert(): %r"
+                                         % snap.diff(a, b, limit=1)))
+            except Exception as exc:
+                fails.append(failure("conv.str", "str(converter) / reload raised %s: %s"
+                                     % (type(exc).__name__, str(exc)[:120]), exc=type(exc).__name__))
         return _nt(doc, drops), classes, fails[:6]
     finally:
         env.rm(d)
